@@ -57,6 +57,9 @@ func getSwapOutReceiverStates() States {
 				Event_OnFeeInvoicePaid: State_SwapOutReceiver_BroadcastOpeningTx,
 				Event_OnCancelReceived: State_SwapCanceled,
 				Event_ActionFailed:     State_SendCancel,
+				// The fee invoice expires after 10 minutes, the same
+				// time the timeout armed with the agreement fires.
+				Event_OnTimeout: State_SendCancel,
 			},
 			FailOnrecover: true,
 		},
